@@ -9,10 +9,14 @@ from .. import gen
 from ..explore import Walk
 
 KINDS = {'api-exc', 'confirmed-set', 'next-choices', 'leaf-nodes', 'leaf-not-final', 'choice-node-left', 'order-dependence',
-         'reachable-set-missing', 'reachable-set-extra', 'apply-exc', 'feasible-leaf-not-admissible'}
-RULE = ('seeded random DSGs from streams tame (unshared options, derivation cycles, 1-2 start nodes), tree '
-        '(hierarchical, conditional choices) and shared (options shared between choices, several choices per node, '
-        'options that are start nodes); per graph the complete resolution tree over all orders and all offered options '
+         'reachable-set-missing', 'reachable-set-extra', 'apply-exc', 'feasible-leaf-not-admissible',
+         'confirmed-edges-function', 'traverse-function', 'start-nodes-pruning'}
+RULE = ('corpus of minimised past failures first; seeded random DSGs from streams tame (unshared options, derivation '
+        'cycles, 1-2 start nodes), tree (hierarchical, conditional choices), shared (options shared between choices, several '
+        'choices per node, options that are start nodes) and overlap (overlapping derivation paths, choices on shared '
+        'intermediate nodes), a fifth of the tree / overlap graphs with a component no start node derives; every fourth '
+        'graph additionally at function level (confirmed edges of every node with a shared cache and without, '
+        'traverse_until_choice_nodes for random start sets); per graph the complete resolution tree over all orders and all offered options '
         'up to a state budget; a case is one state of that tree; non-trivial = the graph has >= 2 architectures or an '
         'incompatibility; distinct by (graph, pick set)')
 BUDGET = {'quick': 60, 'thorough': 900}
@@ -119,6 +123,83 @@ def gen_overlap(rng):
     return {'n': n, 'derives': derives, 'sel': sel, 'start': [0], 'incompat': [], 'cons': []}
 
 
+def check_traversal(ctx, rep, spec, kinds=KINDS):
+    """Function level (graph/traversal.py): get_confirmed_edges_for_node for every node of the initialised graph in a
+    random order with one shared cache dict (as the influence matrix uses it), and without cache; and
+    traverse_until_choice_nodes for random start sets - vs Adsg.confirmedEdges / confirmedFrom / choicesFrom computed on
+    the derivation edges and choices of that same graph."""
+    from adsg_core.graph.traversal import get_confirmed_edges_for_node, traverse_until_choice_nodes
+    from adsg_core.graph.graph_edges import EdgeType, get_edge_type
+    try:
+        b = gen.build(spec)
+    except Exception:
+        return
+    g = b.dsg.graph
+    nodes = [n for n in g.nodes if n in b.idx]
+    if not nodes:
+        return
+    derives = sorted({(b.idx[u], b.idx[v]) for u, v, d in g.edges(data=True)
+                      if u in b.idx and v in b.idx and d.get('type') in (EdgeType.DERIVES, EdgeType.CONNECTS)})
+    sel = []
+    cmap = {}
+    for cn in g.nodes:
+        if cn in b.cidx:
+            origins = [u for u in g.predecessors(cn) if u in b.idx]
+            if len(origins) == 1:
+                cmap[cn] = len(sel)
+                sel.append({'o': b.idx[origins[0]], 'opts': [b.idx[o] for o in g.successors(cn) if o in b.idx]})
+    mg = {'n': spec['n'], 'derives': [list(e) for e in derives], 'sel': sel, 'start': [], 'incompat': []}
+    order = list(nodes)
+    ctx.rng.shuffle(order)
+    starts = [ctx.rng.sample(nodes, ctx.rng.randint(1, min(3, len(nodes)))) for _ in range(3)]
+    m = ctx.driver.ask('confirmed', g=mg, nodes=[b.idx[n] for n in order], starts=[[b.idx[n] for n in st] for st in starts])
+    inp = {'spec': spec, 'order': [b.idx[n] for n in order]}
+    cls = dict(stream_cls(spec, spec.get('stream', 'function')), model_completable=None)
+    cache = {}
+    n_cross = 0
+    for nd, want in zip(order, m['edges']):
+        want = sorted(tuple(e) for e in want)
+        for label, kw in (('shared-cache', {'cache': cache}), ('no-cache', {})):
+            try:
+                got = get_confirmed_edges_for_node(g, nd, include_choice=False, **kw)
+            except Exception as e:
+                if 'confirmed-edges-function' in kinds:
+                    rep.disagree('confirmed-edges-function', dict(inp, node=b.idx[nd], mode=label), {'exc': repr(e)[:200]}, cls)
+                continue
+            got = sorted({(b.idx[e[0]], b.idx[e[1]]) for e in got if e[0] in b.idx and e[1] in b.idx})
+            if got != want and 'confirmed-edges-function' in kinds:
+                rep.disagree('confirmed-edges-function', dict(inp, node=b.idx[nd], mode=label),
+                             {'missing': [e for e in want if e not in got][:5], 'extra': [e for e in got if e not in want][:5]}, cls)
+                break
+        n_cross += len(want) > 1
+    for st, want in zip(starts, m['from']):
+        try:
+            conf, chs = traverse_until_choice_nodes(g, set(st))
+        except Exception as e:
+            if 'traverse-function' in kinds:
+                rep.disagree('traverse-function', dict(inp, start=[b.idx[n] for n in st]), {'exc': repr(e)[:200]}, cls)
+            continue
+        got_n = sorted(b.idx[n] for n in conf if n in b.idx)
+        got_c = sorted(cmap[c] for c in chs if c in cmap)
+        if (got_n != want['nodes'] or got_c != sorted(want['choices'])) and 'traverse-function' in kinds:
+            rep.disagree('traverse-function', dict(inp, start=[b.idx[n] for n in st]),
+                         {'impl': [got_n, got_c], 'model': [want['nodes'], sorted(want['choices'])]}, cls)
+    # set_start_nodes: "nodes that cannot be derived from any of the starting nodes are removed" - exactly those
+    if not spec.get('cons') and not spec.get('conn'):
+        try:
+            b0 = gen.build(spec, initialize=False)
+            kept = b0.node_ids(b0.dsg)
+            md = ctx.driver.ask('confirmed', g=gen.model_graph(spec))['derivable']
+            if kept != md and 'start-nodes-pruning' in kinds:
+                rep.disagree('start-nodes-pruning', {'spec': spec}, {'kept_not_derivable': [v for v in kept if v not in md][:6],
+                                                                     'derivable_removed': [v for v in md if v not in kept][:6]}, cls)
+            rep.count('level:start-nodes-pruning')
+        except Exception as e:
+            rep.count('start-nodes-pruning-exc:' + type(e).__name__)
+    rep.case(dict(inp, level='function'), nontrivial=n_cross >= 2, n=len(order) * 2 + len(starts))
+    rep.count('level:function')
+
+
 def run(ctx, rep, kinds=KINDS):
     for ci, spec in enumerate(CORPUS):
         if ctx.mine(ci):
@@ -134,6 +215,11 @@ def run(ctx, rep, kinds=KINDS):
         if not ctx.mine(i):
             continue
         check_graph(ctx, rep, spec, stream, kinds)
+        if i % 4 == 0:
+            try:
+                check_traversal(ctx, rep, dict(spec, stream=stream), kinds)
+            except Exception as e:
+                rep.count('function-level-exc:' + type(e).__name__)
         if ctx.out_of_time():
             break
     rep.notes.append('graphs generated: %d' % (i + 1))
